@@ -728,7 +728,7 @@ func (m *smodel) add(a netip.Addr, names []string) {
 
 var (
 	// the IPv4-mapped twin of the first address is a different key
-	stAddrs = []netip.Addr{netip.MustParseAddr("1.2.3.4"), netip.MustParseAddr("::1"), netip.MustParseAddr("fe80::1%eth0"), netip.MustParseAddr("::ffff:1.2.3.4")}
+	stAddrs = []netip.Addr{netip.MustParseAddr("1.2.3.4"), netip.MustParseAddr("::1"), netip.MustParseAddr("fe80::1%eth0"), netip.MustParseAddr("::ffff:1.2.3.4"), netip.MustParseAddr("0.0.0.0")}
 	stNames = []string{"a.example", "A.Example", "b.example", "über.example", "ÜBER.example", "B.EXAMPLE", "c"}
 )
 
@@ -928,6 +928,12 @@ func runStorageBig(r *mon.Run, c stBig, q *int64) {
 	s, _ := hostsfile.NewDefaultStorage()
 	m := newModel()
 	addr := func(i int) netip.Addr {
+		switch i {
+		case 2:
+			return netip.IPv4Unspecified() // blocklists map names to the unspecified addresses
+		case 3:
+			return netip.IPv6Unspecified()
+		}
 		if i%2 == 0 {
 			return netip.AddrFrom4([4]byte{10, 0, byte(i >> 8), byte(i)})
 		}
@@ -1040,7 +1046,7 @@ func TestStorage(t *testing.T) {
 			r.Count("add_sequences", int64(hi-lo))
 		})
 	}
-	r.Exhaustive(fmt.Sprintf("every sequence of 1..%d Add calls over %d records (4 addresses incl. a zoned one and an IPv4-mapped twin x {no name, each of 7 names in 3 letter cases incl. non-ASCII, 7 two-name combinations}); all queries after every Add", depth, len(al)))
+	r.Exhaustive(fmt.Sprintf("every sequence of 1..%d Add calls over %d records (5 addresses incl. a zoned one, an IPv4-mapped twin and 0.0.0.0 x {no name, each of 7 names in 3 letter cases incl. non-ASCII, 7 two-name combinations}); all queries after every Add", depth, len(al)))
 	r.Sample([]string{al[1].String(), al[2].String(), al[0].String(), al[12].String()})
 	nr := r.Pick(3_000, 200_000)
 	mon.Parallel(nr, func(w, lo, hi int) {
